@@ -449,18 +449,21 @@ def plain_script(cfg, hist):
     elif kind == "dict2":
         L += ["s0, s1 = {}, {}", "loaders = [jinja2.DictLoader(s0), jinja2.DictLoader(s1)]"]
     L += [f"env = jinja2.Environment(loader=loaders[0], cache_size={size!r}, auto_reload={auto_reload!r})",
-          "def show(f):",
-          "    try: print('  ->', repr(f().render()))",
+          "def show(f, names):",
+          "    try: print('  -> rendered', repr(f().render()))",
           "    except jinja2.TemplateNotFound as e: print('  ->', type(e).__name__)",
+          "    for n in names:",
+          "        try: print('     current source of %r according to env.loader.get_source: %r' % (n, env.loader.get_source(env, n)[0]))",
+          "        except jinja2.TemplateNotFound: print('     %r: not found by env.loader.get_source' % n)",
           "    if env.cache is not None:",
           "        print('     cache (most recent first for LRUCache):', [(k[1], t.render(), t.is_up_to_date) for k, t in env.cache.items()])"]
     for op in hist:
         op = tuple(op)
         L.append(f"print({op!r})")
         if op[0] == "get":
-            L.append(f"show(lambda: env.get_template({op[1]!r}))")
+            L.append(f"show(lambda: env.get_template({op[1]!r}), {list(op[1:])!r})")
         elif op[0] == "select":
-            L.append(f"show(lambda: env.select_template({list(op[1:])!r}))")
+            L.append(f"show(lambda: env.select_template({list(op[1:])!r}), {list(op[1:])!r})")
         elif op[0] in ("modify", "add"):
             src = text(op[1], op[2], op[3])
             if kind == "fs":
@@ -513,7 +516,7 @@ def _classify(cfg, kind, hist, op, a, b):
         extra = a[len(b):]
         if all(isinstance(x, tuple) and x and x[0] == "not-current" for x in extra):
             # implementation and cache model agree, but the rendered text is not the current source
-            return f"C25/not-current-source/{cfg[0]}/{okind}"
+            return f"C25/not-current-source/{cfg[0]}" + ("/shadowed-by-earlier-loader" if cfg[0] == "choice" else "")
         return f"C25/invariant/{cfg[0]}/{okind}"
     if kind == "obs":
         what = "result"
@@ -536,11 +539,12 @@ def _report(p, cfg, kind, hist, op, a, b):
 
 
 def bfs_shard(arg):
-    cfg, base = arg
+    cfg, base, merge_reps = arg
     core.import_all_jinja()
     p = core.Part()
     _SIGS.clear()
-    res = e2.explore(make_system(cfg, base), ops_of, step, canon, absm, merge_reps=2, max_violations=100000)
+    MEMO["on"] = True
+    res = e2.explore(make_system(cfg, base), ops_of, step, canon, absm, merge_reps=merge_reps, max_violations=100000)
     if not res.fixpoint:
         raise core.HarnessError(f"no fixpoint for {cfg}")
     p.evals += res.transitions
@@ -548,8 +552,8 @@ def bfs_shard(arg):
     p.count("transitions", res.transitions)
     p.count("merges_validated", res.merges_validated)
     p.count("configurations", 1)
-    p.counters["cfg %s size=%d auto_reload=%s" % cfg[:3]] = (
-        f"names={len(cfg[3])} versions={len(cfg[4])} states={res.states} transitions={res.transitions} "
+    p.counters["cfg %s size=%d auto_reload=%s names=%d versions=%d" % (cfg[:3] + (len(cfg[3]), len(cfg[4])))] = (
+        f"states={res.states} transitions={res.transitions} "
         f"max_depth={res.max_depth} merges_validated={res.merges_validated} fixpoint={res.fixpoint}")
     for s in _SIGS:
         p.sig(("bfs",) + s)
@@ -577,6 +581,7 @@ def flat_shard(arg):
     _SIGS.clear()
     system = make_system(cfg, base)
     seen = set()
+    MEMO["on"] = False  # the cross-check runs the real compiler every time (and compares compile with _compile counts)
 
     def rec(hist, depth):
         s = system()
@@ -599,10 +604,13 @@ def flat_shard(arg):
             for o in ops_of(s):
                 rec(hist + (o,), depth)
 
-    if mode == "ext":
-        rec(tuple(arg[2]), arg[3])
-    else:
-        rec((), arg[2])
+    try:
+        if mode == "ext":
+            rec(tuple(arg[2]), arg[3])
+        else:
+            rec((), arg[2])
+    finally:
+        MEMO["on"] = True
     p.count("flat_histories", p.evals)
     for s in _SIGS:
         p.sig(("flat",) + s)
@@ -633,19 +641,34 @@ def flat_prefixes(cfg, k):
 # --------------------------------------------------------------------------
 
 
+AB, ABC = ("a", "b"), ("a", "b", "c")
+SIZES = (0, 1, 2, -1)
+
+
 def configurations(quick):
+    """(kind, cache_size, auto_reload, names, versions); bounds chosen from measured state counts (see run())"""
+    plan = []  # (kind, sizes, names, versions)
+    if quick:
+        for kind in ("dict", "fstr", "ftriple", "fs"):
+            plan.append((kind, SIZES, AB, (1, 2)))
+        plan.append(("choice", (0, 1), AB, (1, 2)))
+        plan.append(("choice", (2, -1), AB, (1,)))
+        plan.append(("dict2", (0, 1), AB, (1, 2)))
+        plan.append(("dict2", (2, -1), AB, (1,)))  # 4 cache keys: size 2 evicts
+    else:
+        for kind in ("dict", "fstr", "ftriple"):
+            plan.append((kind, SIZES, ABC, (1, 2, 3)))
+        plan.append(("fs", SIZES, ABC, (1, 2)))
+        plan.append(("fs", SIZES, AB, (1, 2, 3)))
+        plan.append(("choice", SIZES, AB, (1, 2, 3)))
+        plan.append(("choice", (0, 1), ABC, (1, 2)))
+        plan.append(("dict2", SIZES, AB, (1, 2)))
+        plan.append(("dict2", (0, 1), AB, (1, 2, 3)))
+        plan.append(("dict2", (0, 1), ABC, (1, 2)))
     cfgs = []
-    for kind in KINDS:
-        for size in (0, 1, 2, -1):
+    for kind, sizes, names, versions in plan:
+        for size in sizes:
             for ar in (True, False):
-                if quick:
-                    names, versions = ("a", "b"), (1, 2)
-                    if NSTORES[kind] == 2:
-                        versions = (1,) if size in (0, -1) else (1, 2)
-                elif NSTORES[kind] == 2:
-                    names, versions = ("a", "b"), (1, 2, 3)
-                else:
-                    names, versions = ("a", "b", "c"), (1, 2, 3)
                 cfgs.append((kind, size, ar, names, versions))
     return cfgs
 
@@ -666,10 +689,13 @@ def run(ctx: core.Ctx):
         "implementation in lock-step; the property oracle 'current source' is evaluated independently)",
         "the unbounded cache (cache_size=-1) is compared as a set of entries, it has no recency order",
         "no bytecode cache; single thread; one Environment per history",
+        "harness shortcut in the BFS part: Environment.compile is counted, then served from a per-worker memo keyed by "
+        "(source, name, file basename) - the compiler is not under test here; the dedup-free enumeration runs the real "
+        "compiler on every call and also requires compile/_compile call counts to agree",
     ]
     cfgs = configurations(ctx.quick)
     # heaviest first is not possible (pmap shuffles), but shards are independent configurations
-    ctx.pmap(bfs_shard, [(c, base) for c in cfgs])
+    ctx.pmap(bfs_shard, [(c, base, 2 if (ctx.quick or NSTORES[c[0]] == 1) else 1) for c in cfgs])
     depth = 4 if ctx.quick else 6
     flat_cfgs = [("dict", 1, True, ("a", "b"), (1, 2))]
     if not ctx.quick:
